@@ -232,6 +232,130 @@ def check_actor_arms(rep, ctx):
         rep.add(Query("witness: actor arm %s has an insert branch and an increment branch" % variant, "witness-hit" if vac and inc else "witness-missed", "", 0, "mirsym"))
 
 
+KEY_REPLAY = '''
+#[cfg(test)]
+mod verif_replay_c11_key {
+    use super::*;
+    fn summary(user: &str, path: &str, cmd: &str) -> ProxySummary {
+        ProxySummary { id: 1, method: "GET".to_string(), url: "/x".to_string(), clientIp: "127.0.0.1".to_string(), clientPort: 1, ip: "169.254.169.254".to_string(), port: 80, userId: 1000,
+            userName: user.to_string(), userGroups: vec![], processFullPath: PathBuf::from(path), processCmdLine: cmd.to_string(), runAsElevated: false, responseStatus: "403".to_string(),
+            elapsedTime: 0, errorDetails: String::new() }
+    }
+    #[test]
+    fn c11_different_callers_have_different_summary_keys() {
+        let (a, b) = (summary(%(u1)s, %(p1)s, %(c1)s), summary(%(u2)s, %(p2)s, %(c2)s));
+        assert_ne!(a.to_key_string(), b.to_key_string(), "two different callers share one failed-authorization entry (their denials are counted under the first one)");
+    }
+}
+'''
+
+
+def check_summary_key(rep, ctx):
+    """ProxySummary::to_key_string - the key under which a denial is counted - (1) is the formatted text itself, of the caller's user,
+    destination, process path and command line unmodified; (2) z3 strings: do two DIFFERENT (user, path, command line) tuples exist
+    with the same key (separator ambiguity)? A model is replayed natively."""
+    from strterm import unescape_bytes_const, parse_fmt_template
+    try:
+        p = ctx.method("ProxySummary", "to_key_string")
+    except Inconclusive:
+        return
+    eng = ctx.engine()
+    paths = [r for r in eng.explore(p) if r.status == "return"]
+    rep.functions_encoded.append(p)
+    need = {"userName", "ip", "port", "processFullPath", "processCmdLine"}
+    fields = ctx.structs.get("ProxySummary", [])
+    shape_ok = len(paths) == 1
+    template, leaves_f = None, []
+    if shape_ok:
+        r = paths[0]
+        v = origin(r.ret)
+        shape_ok = isinstance(v, Agg) and v.name == "fmt::Formatted"
+        if shape_ok:
+            args_ = v.fields[0]
+            template = unescape_bytes_const(args_.fields[0].text) if isinstance(args_.fields[0], ConstV) else None
+            arr = args_.fields[1] if len(args_.fields) > 1 else None
+            for a in (arr.fields if isinstance(arr, Agg) else []):
+                x = origin(a.fields[0] if isinstance(a, Agg) and a.name == "fmt::Argument" else a)
+                if isinstance(x, Sym) and x.tag[0] == "ret" and re.search(r"to_string_lossy$|display$|as_str$|to_str$", x.tag[1]):
+                    ev = [e for e in r.events if e.ret is x]
+                    x = origin(ev[0].rargs[0]) if ev else x
+                nm = None
+                if isinstance(x, Sym) and x.tag[0] == "part" and isinstance(x.tag[2], tuple) and x.tag[2][0] == "f" and x.tag[2][1] < len(fields):
+                    nm = fields[x.tag[2][1]]
+                leaves_f.append(nm)
+            shape_ok = template is not None and need <= set(leaves_f) and None not in leaves_f
+    rep.add(Query("ProxySummary::to_key_string is the formatted text of the caller's user, destination, process path and command line, unmodified (fields %s)" % leaves_f,
+                  "holds" if shape_ok else "violated", "" if shape_ok else "result %r" % (paths[0].ret if paths else None,), 0, "mirsym", key="C11.summary-key.shape", reproduced=None))
+    if not shape_ok:
+        # native witness for a transformed key: callers that differ only in letter case / by surrounding blanks must not share an entry
+        import replay as rp
+        code = KEY_REPLAY % {"u1": '"Verif"', "p1": '"/usr/bin/Tool"', "c1": '"Tool -V"', "u2": '"verif"', "p2": '"/usr/bin/tool"', "c2": '"tool -v"'}
+        res_, _o = rp.run_rust_tests("azure-proxy-agent", [("proxy_agent/src/proxy/proxy_summary.rs", code)], "verif_replay_c11_key", no_args=True)
+        st = (res_ or {}).get("c11_different_callers_have_different_summary_keys")
+        q = rep.queries[-1]
+        q.replay = save_replay("C11", "summary_key_case.rs", "// append to proxy_agent/src/proxy/proxy_summary.rs; run the whole azure-proxy-agent test binary\n" + code)
+        q.detail += " || native replay (callers differing only in letter case): %s" % st
+        if st == "FAILED":
+            q.reproduced = True
+            rep.traces_validated += 1
+        return
+    parts = parse_fmt_template(template)
+
+    def keyterm(vs):
+        out, k = [], 0
+        for prt in parts:
+            if prt[0] == "lit":
+                out.append(z3.StringVal(prt[1]))
+            else:
+                out.append(vs[k]); k += 1
+        return z3.Concat(*out) if len(out) > 1 else out[0]
+    ident = [i for i, nm in enumerate(leaves_f) if nm in ("userName", "processFullPath", "processCmdLine")]
+    A = [z3.String("a_%s" % nm) for nm in leaves_f]
+    B = [z3.String("b_%s" % nm) for nm in leaves_f]
+    sol = z3.Solver()
+    sol.set("timeout", 60000)
+    for i, nm in enumerate(leaves_f):
+        if i not in ident:
+            sol.add(A[i] == B[i], A[i] == z3.StringVal({"ip": "1", "port": "80", "clientIp": "2", "responseStatus": "403"}.get(nm, "x")))
+        else:
+            for v in (A[i], B[i]):
+                sol.add(z3.Length(v) >= 1, z3.Length(v) <= 4)
+                ab = z3.Union(z3.Range("a", "c"), z3.Re("/"))
+                # inside a field: letters, '/', a blank, and every character the template itself uses as a separator - except NUL, which
+                # neither a user name, a path nor a command line joined from NUL-separated arguments can contain (stated assumption)
+                seps = sorted({ch for prt in parts if prt[0] == "lit" for ch in prt[1] if ch != "\x00"} | {" "})
+                mid = z3.Union(ab, *[z3.Re(ch) for ch in seps]) if seps else ab
+                sol.add(z3.InRe(v, z3.Concat(ab, z3.Star(mid), ab)))
+    sol.add(keyterm(A) == keyterm(B), z3.Or([A[i] != B[i] for i in ident]))
+    t0 = time.time()
+    res = sol.check()
+    dt = time.time() - t0
+    qn = "the summary key is injective: different (user, process path, command line) never share a key (strings of 2-4 characters over {a,b,c,/,space} and the template's own separator characters; no NUL inside a field)"
+    if res == z3.unsat:
+        rep.add(Query(qn, "holds", "", dt, "z3", key="C11.summary-key.injective"))
+        return
+    if res != z3.sat:
+        rep.add(Query(qn, "inconclusive", "z3: %s" % res, dt, "z3", key="C11.summary-key.injective"))
+        return
+    m = sol.model()
+    val = lambda v: m.eval(v, model_completion=True).as_string()
+    g = lambda X, nm: json.dumps(val(X[leaves_f.index(nm)]))
+    code = KEY_REPLAY % {"u1": g(A, "userName"), "p1": g(A, "processFullPath"), "c1": g(A, "processCmdLine"), "u2": g(B, "userName"), "p2": g(B, "processFullPath"), "c2": g(B, "processCmdLine")}
+    path = save_replay("C11", "summary_key_collision.rs", "// append to proxy_agent/src/proxy/proxy_summary.rs; run the whole azure-proxy-agent test binary\n" + code)
+    model = {str(d): str(m[d]) for d in m.decls()}
+    known = any(f.get("key") == "C11.summary-key.injective" for f in load_known_findings().get("findings", []))
+    if known and rep.tier != "thorough":
+        st = "FAILED"
+    else:
+        import replay as rp
+        res_, _o = rp.run_rust_tests("azure-proxy-agent", [("proxy_agent/src/proxy/proxy_summary.rs", code)], "verif_replay_c11_key", no_args=True)
+        st = (res_ or {}).get("c11_different_callers_have_different_summary_keys")
+        if st == "FAILED":
+            rep.traces_validated += 1
+    rep.add(Query(qn, "violated" if st in ("FAILED", "ok") else "inconclusive", "z3 model %s; native replay: %s%s" % (model, st, " (known finding: replayed when recorded)" if known and rep.tier != "thorough" else ""), dt, "z3",
+                  key="C11.summary-key.injective", model=model, replay=path, reproduced=True if st == "FAILED" else (False if st == "ok" else None)))
+
+
 def check(rep, tier, seed):
     ctx = Ctx("agent")
     rep.extra["mir_dump"] = {"cache_hit": ctx.dump.cache_hit, "tree_hash": ctx.dump.hash, "seconds": round(ctx.dump.seconds, 1)}
@@ -241,6 +365,7 @@ def check(rep, tier, seed):
     check_handler_recording(rep, hm)
     check_summary_body(rep, ctx)
     check_actor_arms(rep, ctx)
+    check_summary_key(rep, ctx)
     import p_c02
     p_c02.check_decision(rep, ctx)     # a denial is a denial in every mode but Disabled: is_allowed's decision does not depend on Audit/Enforce
     rep.assumptions += ["is_allowed (beyond its Disabled prefix) is uninterpreted in the authorizers: any decision", "Future::poll returns Ready"]
